@@ -51,14 +51,17 @@ func determine(r klog.Record, b txt.Block) *style {
 			return nil
 		})
 	}
-	for _, l := range b.Lines() {
+	// Only consider the lines of the record itself, not the blank lines
+	// around it (which may consist of arbitrary spaces or tabs).
+	recordLines, _, _ := b.SignificantLines()
+	for _, l := range recordLines {
 		if l.Indentation() != "" {
 			s.indentation.Set(l.Indentation())
 			break
 		}
 	}
-	if len(b.Lines()) > 0 && b.Lines()[0].LineEnding != "" {
-		s.lineEnding.Set(b.Lines()[0].LineEnding)
+	if len(recordLines) > 0 && recordLines[0].LineEnding != "" {
+		s.lineEnding.Set(recordLines[0].LineEnding)
 	}
 	return s
 }
